@@ -10,7 +10,9 @@ import (
 	"time"
 
 	"go.nanomsg.org/mangos/v3"
+	"go.nanomsg.org/mangos/v3/protocol/pair"
 	"go.nanomsg.org/mangos/v3/transport"
+	"go.nanomsg.org/mangos/v3/transport/inproc"
 
 	"verifharness/rec"
 	"verifharness/sim"
@@ -121,6 +123,70 @@ func TestMsg(t *testing.T) {
 			})
 			add("conn", res)
 		}
+	}
+	// inproc's ownership rule: Send hands a copy across; the caller's message is the caller's again when Send fails
+	// (the far end closed while the Send was waiting, or this end was closed), and is released by inproc on success
+	for variant := 0; variant < 3; variant++ {
+		variant := variant
+		res := sim.Run(t, 10*time.Second, func(s *sim.S) {
+			defer withLedger(s.Rec)()
+			a, _ := pair.NewSocket()
+			b, _ := pair.NewSocket()
+			defer a.Close()
+			defer b.Close()
+			url := fmt.Sprintf("inproc://msgown-%d-%d", os.Getpid(), variant)
+			l, err := inproc.Transport.NewListener(url, a)
+			must(err)
+			must(l.Listen())
+			var srv transport.Pipe
+			go func() { srv, _ = l.Accept() }()
+			d, err := inproc.Transport.NewDialer(url, b)
+			must(err)
+			s.Wait()
+			cli, err := d.Dial()
+			must(err)
+			s.Wait()
+			if srv == nil {
+				panic("inproc accept did not complete")
+			}
+			// one message goes through (the receiver owns what it gets)
+			done := make(chan struct{})
+			go func() {
+				if m, err := srv.Recv(); err == nil {
+					appGot(s, m)
+					appFree(s, m)
+				}
+				close(done)
+			}()
+			m1 := appNew(s, 8)
+			m1.Body = append(m1.Body, "through"...)
+			_ = appSend(s, m1, cli.Send)
+			<-done
+			// a Send that is waiting (nobody receives) when a pipe goes away
+			m2 := appNew(s, 8)
+			m2.Body = append(m2.Body, "stranded"...)
+			fin := make(chan struct{})
+			go func() { _ = appSend(s, m2, cli.Send); close(fin) }()
+			s.Wait()
+			switch variant {
+			case 0:
+				_ = srv.Close() // the far end closes
+			case 1:
+				_ = cli.Close() // this end closes
+			case 2:
+				_ = srv.Close()
+				_ = cli.Close()
+			}
+			<-fin
+			// and a Send on a pipe that is already closed
+			m3 := appNew(s, 8)
+			m3.Body = append(m3.Body, "late"...)
+			_ = appSend(s, m3, cli.Send)
+			_ = l.Close()
+			_ = srv.Close()
+			_ = cli.Close()
+		})
+		add("inproc", res)
 	}
 	for i := 0; i < n; i++ {
 		add("req", runReq(t, reqRandom(rng)))
